@@ -680,13 +680,15 @@ impl<'a, 'src> Resolver<'a, 'src> {
         for_.iter.end(),
       );
 
+      // the iterable is evaluated before the loop variables exist
+      self_.expr(&mut for_.iter);
+
       // declare the hidden local $iter variable
       self_.declare_variable(&iterator_token);
       self_.define_variable(&iterator_token);
 
       self_.declare_variable(&for_.item);
       self_.define_variable(&for_.item);
-      self_.expr(&mut for_.iter);
 
       // loop body
       for_.body.symbols = self_.scope(|self_| self_.block(&mut for_.body));
